@@ -3,6 +3,7 @@
 package sen
 
 import (
+	"fmt"
 	"sort"
 	"strconv"
 	"time"
@@ -58,10 +59,18 @@ func (wr *Writer) colorSEN(data any, depth int) {
 
 	case float32:
 		wr.buf = append(wr.buf, wr.NumberColor...)
-		wr.buf = strconv.AppendFloat(wr.buf, float64(td), 'g', -1, 32)
+		if 0 < len(wr.FloatFormat) {
+			wr.buf = fmt.Appendf(wr.buf, wr.FloatFormat, float64(td))
+		} else {
+			wr.buf = strconv.AppendFloat(wr.buf, float64(td), 'g', -1, 32)
+		}
 	case float64:
 		wr.buf = append(wr.buf, wr.NumberColor...)
-		wr.buf = strconv.AppendFloat(wr.buf, td, 'g', -1, 64)
+		if 0 < len(wr.FloatFormat) {
+			wr.buf = fmt.Appendf(wr.buf, wr.FloatFormat, td)
+		} else {
+			wr.buf = strconv.AppendFloat(wr.buf, td, 'g', -1, 64)
+		}
 
 	case string:
 		wr.buf = append(wr.buf, wr.StringColor...)
